@@ -1,15 +1,19 @@
 """C08 — converting a type's JSON Schema (schemars) to OpenAPI (openapiv3) preserves its meaning."""
+import json
 import re
 
-from .lib import PLUMBING, operand_local, root_fn
-from .lib_c08 import ChainOps, Flow, Origins, controllers, field_writes, gen_role, map_stores, root_of
+from . import absint as A
+from .lib import PLUMBING, closure_args_of_call, operand_local, root_fn
+from .lib_c07 import ITER_SUMMARIES, OTHER, StrInterp
+from .lib_c08 import ChainOps, Flow, Origins, closure_upvars, controllers, field_writes, gen_role, map_stores, pslice, root_of, strip_ref
 
 LEVEL = "other"
 TECHNIQUE = ("static analysis: field-sensitive interprocedural source->sink mapping of the converter extracted from MIR (projection-carrying slices that also follow accumulators "
              "filled through `&mut` in loops and private carrier structs / tuples; post-dominator control dependence; unknown helpers inlined; Option/Result combinators desugared "
              "into switches — the normalised view) and compared with a frozen table; "
              "source field list taken from the compiled schemars ADTs; decision tables extracted from the CFG: instance type -> OpenAPI type by reachability restricted to one InstanceType variant, "
-             "format string -> typed format by path-sensitive facts about the string comparisons at each typed-variant construction")
+             "format string -> typed format by path-sensitive facts about the string comparisons at each typed-variant construction, or — when the names live in a constant lookup table — "
+             "by interpreting the lookup (rules/absint.py, strings as equality-only symbols) over the evaluated constant for every name of the table and one outside it")
 LEVEL_TEXT = ("Decides, for every write of a field of an openapiv3 schema type in the call-graph closure of schema_util::j2oas_schema, exactly which fields of the compiled "
               "schemars::schema::{SchemaObject, Metadata, SubschemaValidation, NumberValidation, StringValidation, ArrayValidation, ObjectValidation} it is computed from "
               "(data flow — an iterator chain + collect and a `for` loop pushing into an accumulator are the same flow; for constant-valued flags the controlling predicates), and that this mapping equals the reviewed table: no enumerated keyword or annotation is dropped, "
@@ -18,6 +22,8 @@ LEVEL_TEXT = ("Decides, for every write of a field of an openapiv3 schema type i
               "not-representable-in-OpenAPI-3.0 list (a field added by a schemars upgrade is reported); every nested schema position recurses through the converter; "
               "every built piece reaches the returned schema; openapiv3::Schema values are built only by the converter (plus the explicit free-form `Any`) and every schema "
               "placed in the document comes from it; JSON type -> OpenAPI type and the nine format names map by identity. "
+              "A flag may be a constant written under the listed predicate or the stored predicate itself (`nullable = get(\"nullable\") == Some(&Bool(true))`: one `eq`, never negated, constant true). "
+              "A conversion handed over as `impl Fn` / a shared closure / a function item is examined where it is applied; a private carrier enum is followed per variant. "
               "The exclusive-bound flags must be decided by the presence of the exclusive keyword (the inclusive one may take part, as in the `match (min, exclusive_min)` spelling that rejects both). "
               "Not decided: validator-level equivalence on instances, numeric narrowing (`f64 as i64`), per-value enum conversion, which polarity each flag arm writes.")
 LEVEL_NOTE = ("Trusts rustc MIR, the extractor, the slice over-approximation (extra origins can only raise alarms), std/indexmap adapter semantics "
@@ -127,8 +133,10 @@ SELECTORS = {"SchemaObject.instance_type": "selects the OpenAPI type (table chec
 CARRY_BASE = PLUMBING + [
     r"option::Option::<T>::(map|as_ref|as_deref|cloned|copied|unwrap|expect)$",     # map: the closure body is examined; unwrap/expect fail loudly
     r"option::Option::<&(mut )?T>::(cloned|copied)$",
-    r"string::String::as_str$", r"string::ToString::to_string$", r"borrow::ToOwned::to_owned$", r"clone::Clone::clone_from$",
+    r"vec::Vec::<T, A>::as_slice$", r"string::String::as_str$", r"string::ToString::to_string$", r"borrow::ToOwned::to_owned$", r"clone::Clone::clone_from$",
     r"convert::(TryFrom::try_from|TryInto::try_into)$", r"result::Result::<T, E>::(unwrap|expect)$",    # checked conversion, loud on failure
+    r"ops::(Fn::call|FnMut::call_mut|FnOnce::call_once)<examined-callable>$",    # applying a closure / fn item whose body is examined in place (see _qualify)
+    r"convert::identity$",
     r"default::Default::default<absent>$",   # the "nothing" of an Option / flag / collection (or of a private carrier made of those) on the path where the source is
                                              # absent: the same constant as a literal `None` / `false` / `vec![]` (see _qualify)
 ]
@@ -141,15 +149,18 @@ _COLLECT = [r"iter::Iterator::flatten<option-of-collection>$",    # `opt_vec.ite
             r"vec::Vec::<T, A>::push$", r"(indexmap::IndexMap::<K, V, S>|BTreeMap::<K, V, A>)::insert$"]
 # (`flat_map` whose closure yields an Option / Result is a filter_map: _qualify renames it, so it is not accepted here)
 _RECURSE = [r"^schema_util::j2oas_schema(_object)?$", r"openapiv3::ReferenceOr::<T>::boxed_item$", r"boxed::Box::<T>::new$"]
-_ENUM = _COLLECT + [r"option::Option::<T>::unwrap_or_default$", r"serde_json::Number::as_(i64|f64|u64)$", r"boxed::Box::<T>::new_uninit$", r"boxed::box_assume_init_into_vec_unsafe$"]
+_ENUM = _COLLECT + [r"option::Option::<T>::unwrap_or_default$", r"serde_json::Number::as_(i64|f64|u64)$",
+                    r"serde_json::Value::as_(bool|number|str|i64|u64|f64)$",      # typed accessor == `match v { Value::X(p) => Some(p), _ => None }` (a None element still has to be produced, not skipped: filters are not on this list)
+                    r"boxed::Box::<T>::new_uninit$", r"boxed::box_assume_init_into_vec_unsafe$"]
+_FORMAT = [("ctrl-call", r"cmp::PartialEq::eq$"), r"slice::<impl \[T\]>::iter$", r"iter::Iterator::find_map$", r"cmp::PartialEq::eq$", r"bool::<impl bool>::then_some$"]
 CARRY_EXTRA = {      # sink -> (extra allowed operations, reason)
     "StringType.enumeration": (_ENUM, "element-wise conversion of the enum list (null -> None, string -> Some); vec![None] for the null type"),
     "IntegerType.enumeration": (_ENUM, "element-wise conversion (as_i64().unwrap() fails loudly on a non-integer)"),
     "NumberType.enumeration": (_ENUM, "element-wise conversion"),
     "BooleanType.enumeration": (_ENUM, "element-wise conversion"),
-    "StringType.format": ([("ctrl-call", r"cmp::PartialEq::eq$")], "the format string selects a typed variant (table checked by C08.R4)"),
-    "IntegerType.format": ([("ctrl-call", r"cmp::PartialEq::eq$")], "as above"),
-    "NumberType.format": ([("ctrl-call", r"cmp::PartialEq::eq$")], "as above"),
+    "StringType.format": (_FORMAT, "the format string selects a typed variant: by string tests, or by a lookup in a constant table (both decided exactly by C08.R4)"),
+    "IntegerType.format": (_FORMAT, "as above"),
+    "NumberType.format": (_FORMAT, "as above"),
     "ArrayType.items": (_RECURSE, "the item schema is converted recursively"),
     "ArrayType.unique_items": ([r"option::Option::<T>::unwrap_or$"], "absent uniqueItems means false in both dialects"),
     "ObjectType.properties": (_COLLECT + _RECURSE, "each property schema is converted recursively"),
@@ -187,6 +198,31 @@ def _default_is_absent(ds, ty, depth=0):
     return False
 
 
+def _callable_known(ds, fn, op, depth=0):
+    """The callable value `op` is, on every definition, a closure of the crate or a function item (through moves, borrows and
+    closure captures: `values.iter().map(|v| typed(v))` captures `&typed`)."""
+    if depth > 4:
+        return False
+    sl = pslice(fn, op)
+    known = False
+    for a in sl.atoms:
+        if a[0] == "fnitem" or (a[0] == "agg" and isinstance(a[1], str) and a[1] in ds.F and ds.F[a[1]].raw["kind"] == "Closure"):
+            known = True
+        elif a[0] == "param" and a[1] == 1 and fn.raw["kind"] == "Closure":
+            k = next((int(e[1:].split(":")[0]) for e in a[2] if e.startswith("f")), None)
+            sites = Flow(ds).closure_sites(fn)
+            if k is None or not sites:
+                return False
+            for p, bb, st in sites:
+                ops = st["rv"]["ops"]
+                if k >= len(ops) or not _callable_known(ds, p, ops[k], depth + 1):
+                    return False
+            known = True
+        elif a[0] in ("param", "call", "budget", "resume"):
+            return False
+    return known
+
+
 def _make_qualify(ds):
     def qualify(fn, t):
         c = t.get("callee") or ""
@@ -199,6 +235,12 @@ def _make_qualify(ds):
             return c
         if c.endswith("iter::Iterator::flat_map") and len(ga) >= 2 and re.match(r"^std::(option::Option|result::Result)<", ga[1]):
             return c + "<filtering>"        # flat_map(|x| -> Option<_>) is filter_map
+        if re.search(r"ops::(Fn::call|FnMut::call_mut|FnOnce::call_once)$", c) and t.get("args"):
+            # `convert(x)` with `convert: impl Fn(..)`: after helper inlining the callable is a value of the caller.  When it is
+            # one of the caller's closures / a function item, its body (or name) is on the chain and examined like any other call.
+            if _callable_known(ds, fn, t["args"][0]):
+                return c + "<examined-callable>"
+            return c
         if c.endswith("default::Default::default"):
             d = t.get("dest") or {}
             ty = fn.local_ty(d["l"]) if d and not d.get("p") else None
@@ -326,6 +368,22 @@ def r1_mapping(ctx):
             continue
         if sink in WRAPPERS:
             continue
+        if sink in FLAGS and data and _flag_by_test(m, s):
+            # `flag = (lookup(key) == Some(&CONST))`: the predicate itself is stored instead of a constant written under it.
+            ctrl_req, ctrl_opt, keys, vals, why = FLAGS[sink]
+            oc = Origins()
+            for sb in controllers(f, s["bb"]):
+                oc.update(m.flow.origins(f, f.blocks[sb]["term"]["discr"], control=True))
+            ctrl = data | _src(oc.fields)
+            consumed |= ctrl
+            ok = _set(ctrl_req) <= ctrl <= (_set(ctrl_req) | _set(ctrl_opt)) and all(k in o.lits for k in keys) and sorted(o.bool_lits) == [True]
+            ctx.check(R, "flag:%s:%s" % (fn, sink), ok,
+                      "%s is assigned the test `<value looked up under %s> == <constant %s>` over {%s}; table: true exactly under {%s}%s (%s)" % (
+                          sink, sorted(o.lits), sorted(o.bool_lits), ", ".join(sorted(ctrl)),
+                          ", ".join(sorted(_set(ctrl_req)) + ["[%s]" % x for x in sorted(_set(ctrl_opt))]), (" key %s" % keys) if keys else "", why), (f, s["bb"]))
+            if ok:
+                witnessed.add((sink, "flag"))
+            continue
         if sink in FLAGS and not data:
             ctrl_req, ctrl_opt, keys, vals, why = FLAGS[sink]
             oc = s["oc"]
@@ -390,6 +448,44 @@ def r1_mapping(ctx):
     for adt, var in built:
         ctx.check(R, "delivered:%s::%s" % (adt[len(SINK_PREFIX):], var), (adt, var) in delivered,
                   "%s::%s built in the converter %s on the value returned by j2oas_schema" % (adt, var, "lies" if (adt, var) in delivered else "does NOT lie"), m.entry)
+
+
+_TEST_CARRY = [r"cmp::PartialEq::eq$", r"BTreeMap::<K, V, A>::get$"]
+
+
+def _flag_by_test(m, s):
+    """The flag is not a constant written under a predicate but the predicate's value itself:
+    `data.nullable = obj.extensions.get("nullable") == Some(&Value::Bool(true))`.  Accepted shape (decided on the
+    value's slice, wherever the pieces are let-bound): the stored bool is the result of exactly one `PartialEq::eq`
+    (not `ne`), nothing on the slice negates or combines it (no unary / binary operator), the only other calls are
+    the map lookup and value-preserving plumbing, and the constant side is built from a boolean literal.  Which
+    literal, which key and which schemars fields is then compared with the table by the caller."""
+    f = s["fn"]
+    if s["kind"] != "assign" or len(s["ops"]) != 1:
+        return False
+    sl = m.flow.slice(f, s["ops"][0])
+    if any(a[0] in ("binop", "unop", "budget") for a in sl.atoms):
+        return False
+    base = [re.compile(x) for x in CARRY_BASE + _TEST_CARRY]
+    names = [t.get("resolved") or c for c, bb, t in sl.callees]
+    if sum(1 for c, bb, t in sl.callees if re.search(r"cmp::PartialEq::eq$", c)) != 1:
+        return False
+    if any(not any(r.search(c) for r in base) for c, bb, t in sl.callees):
+        return False
+    # the defining call of the stored operand is the comparison (through moves)
+    l = operand_local(s["ops"][0])
+    for _ in range(6):
+        ds_ = f.defs().get(l, [])
+        if len(ds_) != 1:
+            return False
+        bb, kind, node = ds_[0]
+        if kind == "call":
+            return bool(re.search(r"cmp::PartialEq::eq$", node.get("callee") or ""))
+        if kind == "assign" and node["rv"]["rv"] == "use" and not node["pl"]["p"]:
+            l = operand_local(node["rv"]["op"])
+            continue
+        return False
+    return False
 
 
 def _key_on_guard(m, s, key):
@@ -462,8 +558,8 @@ def r1b_carried_unmodified(ctx):
     base = [re.compile(x) for x in CARRY_BASE]
     for s in m.sites:
         sink = s["sink"]
-        if sink in WRAPPERS or (sink in FLAGS and not _src(s["o"].fields)):
-            continue
+        if sink in WRAPPERS or (sink in FLAGS and (not _src(s["o"].fields) or _flag_by_test(m, s))):
+            continue        # a flag is decided by C08.R1 (constants under predicates, or the stored predicate)
         f = s["fn"]
         ops = set()
         for op in s["ops"]:
@@ -708,6 +804,29 @@ def r4_tables(ctx):
             o = m.flow.origins(g, st["rv"]["ops"][0])
             fmts = sorted((a[0].split("::")[-1], a[1]) for a in o.aggs if a[0].startswith("openapiv3::") and a[0].endswith("Format"))
             delivered_fmt |= set(fmts)
+            if not fmts:
+                # no variant is constructed on the way: the typed value may be the hit of a lookup in a constant table
+                # (`KNOWN.iter().find_map(|&(name, v)| (name == format).then_some(v))`); decided by interpreting the lookup
+                lk = _table_lookup(m, g, st["rv"]["ops"][0])
+                if lk is not None:
+                    table, decided, from_format, problem = lk
+                    ctx.check(R, "format-item:%s:table:%s" % (_fname(m.ds, g), table.split("::")[-1]), problem is None,
+                              "the typed format published here is the hit of a lookup in constant table %s: %s" % (table, problem or "interpreted for every name of the table and for a name outside it"), (g, bb))
+                    if problem is None:
+                        for lit, fmt in sorted(decided.items(), key=lambda kv: str(kv[0])):
+                            if lit == OTHER:
+                                ctx.check(R, "format-table-miss:%s" % table.split("::")[-1], fmt is None,
+                                          "a format name that is not in %s yields %s (expected: no typed variant, the name is kept as Unknown)" % (table, "::".join(fmt) if fmt else "no hit"), (g, bb))
+                                continue
+                            exp = FORMAT_TABLE.get(lit)
+                            ok = fmt is not None and exp == fmt and from_format and seen.get(lit, fmt) == fmt
+                            if fmt is not None:
+                                seen[lit] = fmt
+                                delivered_fmt.add(fmt)
+                            ctx.check(R, "format:%s" % lit, ok,
+                                      "format %r -> %s by lookup in %s (table: %s); the string looked up is the schema's `format`: %s" % (
+                                          lit, "::".join(fmt) if fmt else "no hit", table, "::".join(exp) if exp else "not in table", from_format), (g, bb))
+                    continue
             # a typed format value that is not one of the examined variant constructions (parsed, transmuted, returned by a foreign call ...)
             ctx.check(R, "format-item:%s:%s" % (_fname(m.ds, g), "+".join("%s::%s" % x for x in fmts) or "?"), bool(fmts),
                       "the typed format published here is %s" % ("one of the examined constructions %s" % fmts if fmts else "NOT built from a StringFormat / NumberFormat / IntegerFormat variant the check can see"), (g, bb))
@@ -718,6 +837,98 @@ def r4_tables(ctx):
     for lit in FORMAT_TABLE:
         if lit not in seen:
             ctx.check(R, "format:%s" % lit, False, "format %r is no longer translated to %s" % (lit, "::".join(FORMAT_TABLE[lit])), m.entry_obj)
+
+
+def _table_lookup(m, g, op):
+    """`op` (in g) is the payload of the hit of `<constant table>.iter().find_map(<closure>)` and nothing else.
+    Returns None when it is not that shape at all, else (table path, {name | OTHER: (FormatAdt, Variant) | None}, the string looked up
+    comes from SchemaObject.format, problem | None).  The lookup is *interpreted* (rules/absint.py through lib_c07.StrInterp: strings are
+    symbols that can only be compared for equality) over the evaluated constant for every name in the table and one name outside it,
+    so what the closure does — `(k == name).then_some(v)`, `if name == k { Some(v) } else { None }`, a negated test — is decided, not matched."""
+    ds = m.ds
+    sl = m.flow.slice(g, op, stop_at_calls=r"iter::Iterator::find_map$")
+    fm = [(c, bb, t) for c, bb, t in sl.callees if re.search(r"iter::Iterator::find_map$", c)]
+    if len(fm) != 1:
+        return None
+    if len(sl.callees) != 1 or any(a[0] in ("agg", "binop", "unop", "lit", "const", "param", "fnitem", "budget") for a in sl.atoms):
+        return None         # something else than moves between the hit and the published value
+    t = fm[0][2]
+    if len(t["args"]) != 2:
+        return None
+    # the iterator itself (not what `find_map(&mut it, ..)` does to it): plain definitions only
+    isl = pslice(g, t["args"][0], mutations=False)
+    tables = []
+    for path, v in [(a[1], a[2]) for a in isl.atoms if a[0] == "const"]:
+        try:
+            d = json.loads(v)
+        except Exception:
+            d = None
+        if isinstance(d, dict) and isinstance(d.get("list"), list):
+            tables.append((path, d["list"]))
+    if len(tables) != 1:
+        return None
+    path, rows = tables[0]
+    icalls = sorted(set(c for c, cb, ct in isl.callees))
+    iter_ok = all(re.search(r"(slice::<impl \[T\]>::iter|iter::IntoIterator::into_iter|ops::Deref::deref|convert::AsRef::as_ref)$", c) for c in icalls)
+    if not iter_ok or any(a[0] in ("param", "agg", "binop", "unop", "fnitem", "budget") for a in isl.atoms):
+        return (path, {}, False, "the iterator searched is not simply the table's elements in order (calls on it: %s)" % icalls)
+    pairs = []
+    for r in rows:
+        tup = r.get("tuple") if isinstance(r, dict) else None
+        if not tup or len(tup) != 2 or "str" not in (tup[0] or {}) or not isinstance(tup[1], dict) or "variant" not in tup[1]:
+            return (path, {}, False, "a row of the table is not a (string, field-less enum value) pair: %r" % (r,))
+        pairs.append((tup[0]["str"], tup[1]["adt"], tup[1]["variant"]))
+    clos = closure_args_of_call(g, t)
+    if len(clos) != 1:
+        return (path, {}, False, "the lookup predicate is not one closure of the crate")
+    cf, node = clos[0]
+    ups = closure_upvars(strip_ref(cf.local_ty(1)) or cf.local_ty(1)) or []
+    caps = node["rv"]["ops"]
+    from_format = False
+    cap_depth = []
+    for k, cop in enumerate(caps):
+        co = m.flow.origins(g, cop)
+        ty = ups[k] if k < len(ups) else ""
+        depth = 0
+        while strip_ref(ty) is not None:
+            depth, ty = depth + 1, strip_ref(ty)
+        if "SchemaObject.format" in _src(co.fields) and ty.strip() == "str" and depth >= 1:
+            from_format = True
+            cap_depth.append(depth)
+        else:
+            return (path, {}, False, "the lookup closure captures something else than the format string (capture %d: %s)" % (k, ups[k] if k < len(ups) else "?"))
+    decided = {}
+    for name in [s_ for s_, a_, v_ in pairs] + [OTHER]:
+        if name in decided:
+            continue
+        try:
+            it = StrInterp(ds)
+            # (an enum nobody constructs or matches on is not in the ADT table: its values are only copied, any distinct index will do)
+            vix = lambda a_, v_: it.vidx(a_, v_) if a_ in ds.adts else 1000 + sorted(set(p_[2] for p_ in pairs)).index(v_)
+            elems = [A.V_tuple([StrInterp.string(s_), A.V_enum(a_, vix(a_, v_), v_, [])]) for s_, a_, v_ in pairs]
+            iterv = ("struct", "#iter", [A.V_tuple([A.V_ref(A.Cell(x)) for x in elems]), A.V_int(0)])
+            cv = []
+            for d_ in cap_depth:
+                v = StrInterp.string(name)
+                for _ in range(d_ - 1):
+                    v = A.V_ref(A.Cell(v))
+                cv.append(v)
+            r = it.deref_all(ITER_SUMMARIES["std::iter::Iterator::find_map"](it, [A.V_ref(A.Cell(iterv)), ("closure", cf.raw["id"], cv)], t))
+            bad = sorted(set(o_ for o_, x, y in it.cmp_log if o_.lower() not in ("eq", "ne")))
+            if bad:
+                raise A.LeavesFragment("the names are ordered (%s), not compared for equality" % ",".join(bad))
+            if r is None or r[0] != "enum" or r[1] != "std::option::Option":
+                raise A.LeavesFragment("the lookup does not yield an Option")
+            if r[3] == "None":
+                decided[name] = None
+            else:
+                pv = it.deref_all(r[4][0])
+                if pv is None or pv[0] != "enum":
+                    raise A.LeavesFragment("the hit is not an enum value")
+                decided[name] = (pv[1].split("::")[-1], pv[3])
+        except A.LeavesFragment as e:
+            return (path, {}, from_format, "the lookup closure %s cannot be interpreted: %s" % (cf.id, e))
+    return (path, decided, from_format, None)
 
 
 RULES = [("C08.R1", r1_mapping), ("C08.R1b", r1b_carried_unmodified), ("C08.R2", r2_recursion), ("C08.R3", r3_single_entry), ("C08.R4", r4_tables)]
@@ -767,6 +978,74 @@ _BOOL_ENUM = ("            let enumeration = obj\n                .enum_values\n
               "                        .collect::<Vec<_>>()\n                })\n                .unwrap_or_default();\n")
 _INT_ENUM = ("        .flat_map(|v| {\n            v.iter().map(|vv| match vv {\n                serde_json::Value::Null => None,\n                serde_json::Value::Number(value) => {\n"
              "                    Some(value.as_i64().unwrap())\n                }\n                _ => panic!(\"unexpected enumeration value {:?}\", vv),\n            })\n        })\n")
+# --- third hardening round (shapes of benign/C08-R9..R11, C06-R12, C07-R10), each with a breaking twin
+_NULLABLE_IF = "    if matches!(\n        &obj.extensions.get(\"nullable\"),\n        Some(serde_json::Value::Bool(true))\n    ) {\n        data.nullable = true;\n    }\n"
+
+
+def _nullable_test(op="==", lit="true"):
+    return "    data.nullable = obj.extensions.get(\"nullable\") %s Some(&serde_json::Value::Bool(%s));\n" % (op, lit)
+
+
+_INT_ENUM_FULL = "    let enumeration = enum_values\n        .iter()\n" + _INT_ENUM + "        .collect::<Vec<_>>();\n"
+
+
+def _int_enum_generic(convert="value.as_i64().unwrap()"):
+    return "    let enumeration = j2oas_enumeration(enum_values, |member| {\n        member.as_number().map(|value| %s)\n    });\n" % convert
+
+
+def _enum_helper(body=None):
+    body = body or ("        .map(|vv| {\n            if vv.is_null() {\n                return None;\n            }\n            match convert(vv) {\n                converted @ Some(_) => converted,\n"
+                    "                None => panic!(\"unexpected enumeration value {:?}\", vv),\n            }\n        })\n")
+    return ("fn j2oas_enumeration<T>(\n    enum_values: &Option<Vec<serde_json::value::Value>>,\n    convert: impl Fn(&serde_json::Value) -> Option<T>,\n) -> Vec<Option<T>> {\n"
+            "    let Some(values) = enum_values else {\n        return Vec::new();\n    };\n    values\n        .iter()\n" + body + "        .collect()\n}\n\nfn j2oas_number(\n")
+
+
+_SUBSCHEMAS_MATCH = ("    match (\n        &subschemas.all_of,\n        &subschemas.any_of,\n        &subschemas.one_of,\n        &subschemas.not,\n    ) {\n"
+                     "        (Some(all_of), None, None, None) => openapiv3::SchemaKind::AllOf {\n            all_of: all_of\n                .iter()\n                .map(|schema| j2oas_schema(None, schema))\n                .collect::<Vec<_>>(),\n        },\n"
+                     "        (None, Some(any_of), None, None) => openapiv3::SchemaKind::AnyOf {\n            any_of: any_of\n                .iter()\n                .map(|schema| j2oas_schema(None, schema))\n                .collect::<Vec<_>>(),\n        },\n"
+                     "        (None, None, Some(one_of), None) => openapiv3::SchemaKind::OneOf {\n            one_of: one_of\n                .iter()\n                .map(|schema| j2oas_schema(None, schema))\n                .collect::<Vec<_>>(),\n        },\n"
+                     "        (None, None, None, Some(not)) => openapiv3::SchemaKind::Not {\n            not: Box::new(j2oas_schema(None, not)),\n        },\n        _ => panic!(\"invalid subschema {:#?}\", subschemas),\n    }\n}\n")
+_SUBSCHEMAS_VIA_ENUM = ("    let Some(combinator) = J2oasCombinator::select(subschemas) else {\n        panic!(\"invalid subschema {:#?}\", subschemas)\n    };\n"
+                        "    let convert_all = |members: &[schemars::schema::Schema]| {\n        members.iter().map(|member| j2oas_schema(None, member)).collect::<Vec<_>>()\n    };\n"
+                        "    match combinator {\n        J2oasCombinator::AllOf(members) => openapiv3::SchemaKind::AllOf { all_of: convert_all(members) },\n"
+                        "        J2oasCombinator::AnyOf(members) => openapiv3::SchemaKind::AnyOf { any_of: convert_all(members) },\n"
+                        "        J2oasCombinator::OneOf(members) => openapiv3::SchemaKind::OneOf { one_of: convert_all(members) },\n"
+                        "        J2oasCombinator::Not(negated) => openapiv3::SchemaKind::Not { not: Box::new(j2oas_schema(None, negated)) },\n    }\n}\n")
+
+
+def _combinator_enum(any_of_as="AnyOf"):
+    return ("enum J2oasCombinator<'a> {\n    AllOf(&'a [schemars::schema::Schema]),\n    AnyOf(&'a [schemars::schema::Schema]),\n    OneOf(&'a [schemars::schema::Schema]),\n    Not(&'a schemars::schema::Schema),\n}\n\n"
+            "impl<'a> J2oasCombinator<'a> {\n    fn select(validation: &'a schemars::schema::SubschemaValidation) -> Option<Self> {\n"
+            "        let schemars::schema::SubschemaValidation { all_of, any_of, one_of, not, .. } = validation;\n"
+            "        let keywords_present = usize::from(all_of.is_some()) + usize::from(any_of.is_some()) + usize::from(one_of.is_some()) + usize::from(not.is_some());\n"
+            "        if keywords_present != 1 {\n            return None;\n        }\n"
+            "        if let Some(not) = not {\n            Some(J2oasCombinator::Not(not))\n        } else if let Some(one_of) = one_of {\n            Some(J2oasCombinator::OneOf(one_of.as_slice()))\n"
+            "        } else if let Some(any_of) = any_of {\n            Some(J2oasCombinator::%s(any_of.as_slice()))\n        } else {\n            all_of.as_deref().map(J2oasCombinator::AllOf)\n        }\n    }\n}\n\nfn j2oas_subschemas(\n" % any_of_as)
+
+
+_INT_FORMAT_MATCH = ("    let format = match format.as_ref().map(|s| s.as_str()) {\n        None => openapiv3::VariantOrUnknownOrEmpty::Empty,\n        Some(\"int32\") => openapiv3::VariantOrUnknownOrEmpty::Item(\n"
+                     "            openapiv3::IntegerFormat::Int32,\n        ),\n        Some(\"int64\") => openapiv3::VariantOrUnknownOrEmpty::Item(\n            openapiv3::IntegerFormat::Int64,\n        ),\n"
+                     "        Some(other) => {\n            openapiv3::VariantOrUnknownOrEmpty::Unknown(other.to_string())\n        }\n    };\n\n    let (multiple_of, minimum, exclusive_minimum, maximum, exclusive_maximum) =\n")
+_INT_FORMAT_TABLE = "    let format = j2oas_format(format, &J2OAS_INTEGER_FORMATS);\n\n    let (multiple_of, minimum, exclusive_minimum, maximum, exclusive_maximum) =\n"
+
+
+def _format_table_helper(i32="Int32", test="candidate == name"):
+    return ("const J2OAS_INTEGER_FORMATS: [(&str, openapiv3::IntegerFormat); 2] = [\n    (\"int32\", openapiv3::IntegerFormat::%s),\n    (\"int64\", openapiv3::IntegerFormat::Int64),\n];\n\n"
+            "fn j2oas_format<T: Copy>(\n    format: &Option<String>,\n    known: &[(&str, T)],\n) -> openapiv3::VariantOrUnknownOrEmpty<T> {\n"
+            "    let Some(name) = format.as_deref() else {\n        return openapiv3::VariantOrUnknownOrEmpty::Empty;\n    };\n"
+            "    known\n        .iter()\n        .find_map(|&(candidate, variant)| (%s).then_some(variant))\n"
+            "        .map_or_else(\n            || openapiv3::VariantOrUnknownOrEmpty::Unknown(name.to_string()),\n            openapiv3::VariantOrUnknownOrEmpty::Item,\n        )\n}\n\nfn j2oas_number(\n" % (i32, test))
+
+
+_INT_MULT_MIN = ("                let multiple_of = number.multiple_of.map(|f| f as i64);\n                let (minimum, exclusive_minimum) =\n                    match (number.minimum, number.exclusive_minimum) {\n"
+                 "                        (None, None) => (None, false),\n                        (Some(f), None) => (Some(f as i64), false),\n")
+
+
+def _int_mult_min_shared(closure="|f: f64| f as i64"):
+    return ("                let truncate = %s;\n                let multiple_of = number.multiple_of.map(truncate);\n                let (minimum, exclusive_minimum) =\n                    match (number.minimum, number.exclusive_minimum) {\n"
+            "                        (None, None) => (None, false),\n                        (Some(f), None) => (Some(truncate(f)), false),\n" % closure)
+
+
 SELFTEST = [
     {"name": "maxlength-from-minlength", "kind": "mutant", "edits": [(SU, "string.max_length.map(|n| n as usize),", "string.min_length.map(|n| n as usize),")],
      "expect": ["C08.R1"], "why": "maxLength is published with the value of minLength (constraint altered, maxLength dropped)"},
@@ -877,4 +1156,36 @@ SELFTEST = [
     {"name": "integer-enum-flat-map-filters", "kind": "mutant",
      "edits": [(SU, _INT_ENUM, "        .flat_map(|v| v.iter().flat_map(|vv| vv.as_i64().map(Some)))\n")],
      "expect": ["C08.R1b"], "why": "flat_map over an Option is a filter: enum values that are not integers (and null) silently vanish instead of failing loudly"},
+    # --- third hardening round
+    {"name": "nullable-stored-test", "kind": "benign", "edits": [(SU, _NULLABLE_IF, _nullable_test())],
+     "why": "behaviour-preserving: the flag is assigned the comparison `extensions.get(\"nullable\") == Some(&Bool(true))` itself (stored predicate instead of a constant under a predicate)"},
+    {"name": "nullable-stored-test-negated", "kind": "mutant", "edits": [(SU, _NULLABLE_IF, _nullable_test(op="!="))],
+     "expect": ["C08.R1"], "why": "every schema WITHOUT nullable: true is published as nullable"},
+    {"name": "nullable-stored-test-false", "kind": "mutant", "edits": [(SU, _NULLABLE_IF, _nullable_test(lit="false"))],
+     "expect": ["C08.R1"], "why": "nullable: false is published as nullable, nullable: true is not"},
+    {"name": "enumeration-generic-helper", "kind": "benign", "edits": [(SU, _INT_ENUM_FULL, _int_enum_generic()), (SU, "fn j2oas_number(\n", _enum_helper())],
+     "why": "behaviour-preserving: the enum chain becomes a generic helper taking the per-type conversion as `impl Fn` (let-else, typed accessor, `convert(vv)` applied inside the map closure)"},
+    {"name": "enumeration-generic-helper-clamps", "kind": "mutant",
+     "edits": [(SU, _INT_ENUM_FULL, _int_enum_generic(convert="value.as_i64().unwrap().min(100)")), (SU, "fn j2oas_number(\n", _enum_helper())],
+     "expect": ["C08.R1b"], "why": "the closure handed to the generic helper clamps every enum value: the callable applied through `impl Fn` must be examined"},
+    {"name": "enumeration-generic-helper-filters", "kind": "mutant",
+     "edits": [(SU, _INT_ENUM_FULL, _int_enum_generic()),
+               (SU, "fn j2oas_number(\n", _enum_helper(body="        .filter_map(|vv| if vv.is_null() { Some(None) } else { convert(vv).map(Some) })\n"))],
+     "expect": ["C08.R1b"], "why": "the generic helper silently skips enum values of the wrong JSON type instead of failing loudly"},
+    {"name": "subschemas-private-enum", "kind": "benign", "edits": [(SU, _SUBSCHEMAS_MATCH, _SUBSCHEMAS_VIA_ENUM), (SU, "fn j2oas_subschemas(\n", _combinator_enum())],
+     "why": "behaviour-preserving: the 4-tuple match becomes a private carrier enum built by select() (presence count + if-let chain) and matched afterwards; "
+            "`(x as AllOf).0` reads only what was stored as AllOf (variant-sensitive flow)"},
+    {"name": "subschemas-private-enum-crossed", "kind": "mutant", "edits": [(SU, _SUBSCHEMAS_MATCH, _SUBSCHEMAS_VIA_ENUM), (SU, "fn j2oas_subschemas(\n", _combinator_enum(any_of_as="OneOf"))],
+     "expect": ["C08.R1"], "why": "inside select() anyOf is stored as the OneOf variant: anyOf is published as oneOf"},
+    {"name": "format-lookup-table", "kind": "benign", "edits": [(SU, _INT_FORMAT_MATCH, _INT_FORMAT_TABLE), (SU, "fn j2oas_number(\n", _format_table_helper())],
+     "why": "behaviour-preserving: the format match becomes a constant (name, variant) table searched with find_map + then_some by a generic helper; the lookup is interpreted over the evaluated constant"},
+    {"name": "format-lookup-table-wrong-row", "kind": "mutant", "edits": [(SU, _INT_FORMAT_MATCH, _INT_FORMAT_TABLE), (SU, "fn j2oas_number(\n", _format_table_helper(i32="Int64"))],
+     "expect": ["C08.R4"], "why": "the table pairs int32 with IntegerFormat::Int64"},
+    {"name": "format-lookup-table-negated", "kind": "mutant", "edits": [(SU, _INT_FORMAT_MATCH, _INT_FORMAT_TABLE), (SU, "fn j2oas_number(\n", _format_table_helper(test="candidate != name"))],
+     "expect": ["C08.R4"], "why": "the lookup returns the first row whose name DIFFERS from the format: int32 is published as int64 and unknown names as int32"},
+    {"name": "shared-cast-closure", "kind": "benign", "edits": [(SU, _INT_MULT_MIN, _int_mult_min_shared())],
+     "why": "behaviour-preserving: one `let truncate = |f| f as i64` closure is handed to Option::map for multipleOf and called directly for minimum: "
+            "the item it is applied to is the argument of the call through which the value travels, not of every call that takes the closure"},
+    {"name": "shared-cast-closure-clamps", "kind": "mutant", "edits": [(SU, _INT_MULT_MIN, _int_mult_min_shared(closure="|f: f64| (f as i64).max(0)"))],
+     "expect": ["C08.R1b"], "why": "the shared closure clamps negative bounds to 0"},
 ]
